@@ -243,12 +243,23 @@ def c01(ck):
     util.vacuity(ck, mc, "DumpSeq", ["ThreadList", "Modules", "AppMem", "MemList", "Exception", "SysInfo", "BestEffortX", "Names", "Handles", "Return"])
     ck.add_mc(mc, "the dump pipeline as an allocator of objects: every thread list (named/unnamed, with/without stack), app regions, modules, handles, link maps, soft-failing stream; invariants C01, C11, C19 for a fresh writer")
     scns = _shape_scenarios(25 if quick else 400, ck.seed) + dumps.cross_scenarios(quick, ck.seed)
+    # an image is an image whatever the writer went through before: the histories of C19 in which a dump fails part-way (or
+    # succeeds) before the next one on the same writer; every image that is returned is judged
+    scns += [s for s in _reuse_scenarios(quick, ck.seed) if s["id"].startswith(("reuse/after-", "reuse/same", "reuse/app-moves"))]
     runs = dumps.run_scenarios(ck, scns, "c01")
     evs = []
     for r in runs:
         if not r["dumps"]:
             evs.append({"ev": "failed", "origin": r["id"], "outcome": r["end"]["worker"] if r["end"] else "?"})
-        evs += [dumps.c01_event(r, d) for d in r["dumps"]]
+        cur = dict(r["scn"].get("writer", {}))
+        hist = [h for h in r["scn"].get("history", [{"op": "dump"}])]
+        di = 0
+        for step in hist:
+            if step["op"] == "set":
+                cur.update(step["writer"])
+            elif step["op"] == "dump" and di < len(r["dumps"]):
+                evs.append(dumps.c01_event(dict(r, scn=dict(r["scn"], writer=dict(cur))), r["dumps"][di]))
+                di += 1
     out = os.path.join(ck.work, "c01.ndjson")
     core.export_lines(evs, out)
 
@@ -284,6 +295,10 @@ def _softerr_scenarios(quick, seed):
     # natural failures: a thread that vanishes between enumeration and attach (process not group-stopped), sandbox threads, an unreferenced principal mapping
     t = {"shared": True, "threads": [{"mode": "heartbeat"}, {"mode": "heartbeat"}, {"mode": "rsp0"}, {"mode": "pause", "stack_pages": 1, "sp_off": 100}]}
     scns.append({"id": "vanish+rsp0", "target": t, "writer": {"blamed": "main"}, "faults": {"failspots": ["StopProcess"], "actions": [{"at": {"hook": "enumerate:done"}, "do": "exit", "slot": 1}]}})
+    # threads that another tracer holds (a debugger attached to one thread, strace -p <tid>): the attach is refused (EPERM), the thread is
+    # left out and reported; alone, with fail points, and for every thread but one
+    for k, (slots, fp) in enumerate([([1], []), ([0], ["StopProcess", "ThreadName"]), ([0, 1, 2], ["SuspendThreads"])]):
+        scns.append({"id": f"traced-elsewhere/{k}", "target": dumps.base_target(3), "writer": {"blamed": "main"}, "faults": {"failspots": fp}, "pretrace_slots": slots})
     scns.append({"id": "principal-unreferenced", "target": dumps.base_target(2), "writer": {"blamed": "main", "skip": True, "principal": "0x40"}, "expect": {"prinNotRef": True}})
     scns.append({"id": "non-utf8-name", "target": {"threads": [{"mode": "pause", "stack_pages": 1, "sp_off": 64, "name_hex": "fffe41"}, {"mode": "pause", "stack_pages": 1, "sp_off": 64, "name_hex": "6f6b"}]}, "writer": {"blamed": "main"}})
     scns.append({"id": "direct-auxv-complete+fill-failpoint", "target": dumps.base_target(1), "writer": {"blamed": "main", "direct_auxv": {"phnum": 1, "phdr": "0x1000", "gate": "0x2000", "entry": "0x3000"}},
@@ -332,7 +347,7 @@ def c11(ck):
             unavailable += 1            # no privilege for a private mount namespace here: these plans stay model-only
             continue
         if not r["dumps"]:
-            evs.append({"ev": "c11", "origin": r["id"], "fp": [], "nameFail": 0, "threads": 1, "exited": 0, "rsp0": 0, "prinNotRef": False, "dsoFail": False,
+            evs.append({"ev": "c11", "origin": r["id"], "fp": [], "nameFail": 0, "threads": 1, "exited": 0, "refused": 0, "rsp0": 0, "prinNotRef": False, "dsoFail": False,
                         "auxvComplete": False, "outcome": r["end"]["worker"] if r["end"] else "?", "error": "", "wellFormed": False, "paths": [], "present": []})
         for d in r["dumps"]:
             evs.append(dumps.c11_event(r, d))
@@ -393,6 +408,10 @@ def _reuse_scenarios(quick, seed):
     # configuration is repaired and the same writer is used again: nothing of the failed attempt may show up
     scns.append({"id": "reuse/after-bad-app-memory", "target": tgt(2), "writer": {"blamed": "main", "app_memory": [{"addr": {"region": "app0"}, "len": 3000}, {"addr": "0x10", "len": 64}]},
                  "history": [{"op": "dump", "expect": "err"}, {"op": "set", "writer": {"app_memory": [{"addr": {"region": "app1"}, "len": 64}]}}, {"op": "dump"}, {"op": "dump"}]})
+    t3 = tgt(2)
+    t3["threads"].append({"mode": "rsp0"})
+    scns.append({"id": "reuse/after-bad-app-memory/blamed-unlisted", "target": t3, "writer": {"blamed": {"slot": 0}, "app_memory": [{"addr": "0x10", "len": 64}]},
+                 "history": [{"op": "dump", "expect": "err"}, {"op": "set", "writer": {"app_memory": [], "blamed": {"slot": 3}}}, {"op": "dump"}]})
     for kf in (12, 30, 60):
         scns.append({"id": f"reuse/after-destination-failure@{kf}", "target": tgt(2), "writer": {"blamed": {"slot": 0}, "crash_context": {"sp": {"thread_sp": 0}, "ip": {"region": "code", "off": 300}},
                                                                                                   "app_memory": [{"addr": {"region": "app0"}, "len": 3000}]},
@@ -587,6 +606,12 @@ def c04(ck):
         ths = [{"mode": "pause", "stack_pages": 1, "sp_off": 700, "seed": 50 * k + i} for i in range(n)]
         ex.append({"id": f"pretraced/{k}", "target": {"threads": ths}, "writer": {"blamed": "main"}, "want_regs": True, "pretrace_slots": [k % 2, 2]})
         ex.append({"id": f"zombie-leader/{k}", "target": {"threads": ths, "leader_exits": True}, "writer": {"blamed": {"slot": 1}, "stop_timeout_ms": 30}, "want_regs": True})
+    # threads whose names the kernel reports but a text reader cannot take (bytes that are not UTF-8), or cannot read at all (the read is
+    # made to fail): the NAME is a best-effort datum, the THREAD is there, attached and listed with its registers like any other
+    for k in range(2 if quick else 8):
+        ths = [{"mode": "pause", "stack_pages": 1, "sp_off": 700, "seed": 70 * k + i, "name_hex": [b"caf\xe9-w\xf6rker", b"plain", b"\xff\xfe", b"ok"][(i + k) % 4].hex()} for i in range(3 + k)]
+        ex.append({"id": f"unreadable-name/{k}", "target": {"threads": ths}, "writer": {"blamed": "main" if k % 2 else {"slot": 0}}, "want_regs": True,
+                   "faults": {"name_fail": [{"slot": 1}] if k % 2 else []}})
     runs2 = dumps.run_scenarios(ck, ex, "c04_exit")
     evs += [e for r in runs2 for d in r["dumps"] for e in th_proj.c04_events(r, d)]
     # snapshot consistency under running threads: spinners, process not group-stopped (threads are stopped one by one by attach)
@@ -641,6 +666,26 @@ def _ctx_scenarios(quick, seed):
         if "crash_context" in w and k % 4 == 1 and n > 1:
             w["crash_context"]["tid"] = [0, {"slot": (blamed["slot"] + 1) % n if isinstance(blamed, dict) else 0}][(k // 4) % 2]
         scns.append({"id": f"ctx/{k}", "target": tgt, "writer": w, "want_regs": True})
+    # the blamed thread is alive but NOT in the thread list (it runs without a stack pointer and is skipped at suspend): with a crash
+    # context the record still carries the supplied registers, without one there is no context to carry
+    for k in range(2 if quick else 10):
+        tgt = dumps.base_target(2, regions=[{"name": "code", "len": 8192, "exec": True}])
+        tgt["threads"].append({"mode": "rsp0"})
+        w = {"blamed": {"slot": 2}}
+        if k % 2 == 0:
+            w["crash_context"] = {"sp": {"thread_sp": 0}, "ip": {"region": "code", "off": 64 + k}, "gregs_seed": seed * 31 + k, "fp_seed": seed * 37 + k,
+                                  "siginfo": {"signo": SIGPAIRS[k % len(SIGPAIRS)][0], "code": SIGPAIRS[k % len(SIGPAIRS)][1], "addr": hex(rnd.getrandbits(64))}}
+        scns.append({"id": f"ctx/blamed-unlisted/{k}", "target": tgt, "writer": w, "want_regs": True})
+    # ... and the same after a dump on the same writer that failed AFTER the thread list had been written with that thread listed
+    for k, ctx in enumerate([True, False]):
+        tgt = dumps.base_target(2, regions=[{"name": "code", "len": 8192, "exec": True}])
+        tgt["threads"].append({"mode": "rsp0"})
+        cc = {"sp": {"thread_sp": 0}, "ip": {"region": "code", "off": 200}, "gregs_seed": seed * 41 + k, "fp_seed": seed * 43 + k, "siginfo": {"signo": 11, "code": 1, "addr": "0x5150"}}
+        w = {"blamed": {"slot": 0}, "app_memory": [{"addr": "0x10", "len": 64}]}
+        if ctx:
+            w["crash_context"] = cc
+        scns.append({"id": f"ctx/after-failed-dump/{'ctx' if ctx else 'noctx'}", "target": tgt, "writer": w, "want_regs": True,
+                     "history": [{"op": "dump", "expect": "err"}, {"op": "set", "writer": {"app_memory": [], "blamed": {"slot": 2}}}, {"op": "dump"}]})
     return scns
 
 
@@ -989,6 +1034,10 @@ def _c03_scenarios(quick, seed):
         s = mk(f"slow-stop/vfork/{k}", [{"at": at, "do": "signal", "sig": "rt", "to_slot": 0}], settle_ms=2200)
         s["target"] = {"shared": True, "threads": [{"mode": "heartbeat"}, {"mode": "vfork", "vfork_ms": 1500}, {"mode": "pause", "stack_pages": 2, "sp_off": 6000}], "regions": [{"name": "app0", "len": 256}]}
         scns.append(s)
+    # ... and while the dump waits for that thread's stop, the dumping thread itself is interrupted by a handled signal (EINTR)
+    s = mk("slow-stop/vfork/interrupted-wait", [], settle_ms=2200, faults={"interrupt_wait": True})
+    s["target"] = {"shared": True, "threads": [{"mode": "heartbeat"}, {"mode": "vfork", "vfork_ms": 1500}, {"mode": "pause", "stack_pages": 2, "sp_off": 6000}], "regions": [{"name": "app0", "len": 256}]}
+    scns.append(s)
     # two dumps in a row on one writer, signals in between and during
     scns.append(dict(mk("twice", [{"at": {"hook": "suspended"}, "do": "signal", "sig": "rt", "to_slot": 0}]), history=[{"op": "dump"}, {"op": "dump", "actions": [{"at": {"hook": "attach:ok", "slot": 1}, "do": "signal", "sig": "rt", "to_slot": 1}]}]))
     return scns
